@@ -336,3 +336,15 @@ Print Assumptions prototype_reuse_refuted.
 Theorem readers_are_cloned_in_the_current_code : code_readers_are_cloned = true.
 Proof. reflexivity. Qed.
 Print Assumptions readers_are_cloned_in_the_current_code.
+
+(* round 5: assemblies interleaved on several geometries; a process-wide memo is a hidden shared operand *)
+Theorem multi_geometry_assemblies_history_independent : forall init W h k, pure W ->
+  c_last init W h k = c_last init W [] k /\ c_run init W (h ++ [k]) init = init.
+Proof. exact compute_history_independent_lemma. Qed.
+Print Assumptions multi_geometry_assemblies_history_independent.
+
+Theorem process_wide_memo_refuted :
+  fst (c_last [11; 12; 13] Cref_memo [0%nat] 1%nat) <> fst (c_last [11; 12; 13] Cref_memo [] 1%nat)
+  /\ c_last [11; 12; 13] Cref_nomemo [0%nat] 1%nat = c_last [11; 12; 13] Cref_nomemo [] 1%nat.
+Proof. exact process_wide_memo_refuted_lemma. Qed.
+Print Assumptions process_wide_memo_refuted.
